@@ -1603,3 +1603,27 @@ package engine
 //@   wraps k * -1
 //@   ensures[key] result == keyOf(v)
 //@   claim[distinct-variables-have-distinct-keys] forall a Variable, b Variable :: keyOf(a) == keyOf(b) ==> a == b
+
+//@ spec abstract bound(e *Env, v Variable) bool
+//@ spec abstract valueOf(e *Env, v Variable) Term
+
+//@ func (*Env).lookup
+//@   trusted
+//@   modifies nothing
+//@   ensures result1 == bound(e, v)
+//@   ensures result1 ==> result0 == valueOf(e, v) && result0 != nil
+
+//@ func contains
+//@   property C02
+//@   pure
+//@   deterministic
+//@   modifies nothing
+//@   requires t != nil
+//@   loop 1 invariant 0 <= i && forall j int :: 0 <= j && j < i ==> !contains(Compound.Arg(t as Compound, j), s, env)
+//@   ensures[a-variable-occurs-in-itself] t is Variable && t == s ==> result
+//@   ensures[an-unbound-variable-contains-nothing-else] t is Variable && t != s && !bound(env, t as Variable) ==> !result
+//@   ensures[a-bound-variable-is-looked-through] t is Variable && t != s && bound(env, t as Variable) ==> result == contains(valueOf(env, t as Variable), s, env)
+//@   ensures[the-functor-is-part-of-a-compound] t is Compound && s is Atom && Compound.Functor(t as Compound) == (s as Atom) ==> result
+//@   ensures[a-compound-contains-what-its-arguments-contain] t is Compound && !(s is Atom && Compound.Functor(t as Compound) == (s as Atom)) ==>
+//@       (result <==> exists j int :: 0 <= j && j < Compound.Arity(t as Compound) && contains(Compound.Arg(t as Compound, j), s, env))
+//@   ensures[atomic] !(t is Variable) && !(t is Compound) ==> result == (t == s)
